@@ -246,7 +246,16 @@ def gen(i, R, tier, force_mode=None):
     P = [p for p in pairs() if p[1] not in G.HEAVY]
     heavy_pairs = [p for p in pairs() if p[1] in G.HEAVY]
     malformed = [p for p in P if p[1].split(".", 1)[1] in ("unbal", "half", "closers", "arrowparam", "arrowmix", "arrowcall", "deflast")]
-    tree_ops, placed = G.base_tree(rng, 3, 10, p_bad=0.2, extras=0.3)
+    if swarm["mode"] == "library" and rng.random() < 0.12:
+        # the smallest tree: one supported file, rewritten between scans of one process
+        p = G.new_path(rng)
+        placed = {p: G.pick_content(rng, G.lang_of_path(p) or "py", 0.1, 0.3)}
+        tree_ops = [{"op": "write", "path": p, "content": placed[p]}, {"op": "scan_inproc", "nonce": G.nonce(rng)}]
+        for _ in range(rng.randint(1, 3)):
+            tree_ops.append({"op": "write", "path": p, "content": G.pick_content(rng, G.lang_of_path(p) or "py", 0.1, 0.3)})
+            tree_ops.append({"op": "scan_inproc", "nonce": G.nonce(rng), "live": rng.random() < 0.5})
+    else:
+        tree_ops, placed = G.base_tree(rng, 3, 10, p_bad=0.2, extras=0.3)
     ops += tree_ops
     if rng.random() < 0.35:
         # configuration files below the root must have no effect, in whatever order directories are visited
